@@ -77,9 +77,11 @@ check(
 )
 check(
     "C05",
-    "PestSem.tla (by-value backtracking) evaluated by TLC on the stack family (each stack terminal in each backtracking context, followed by a stack-dependent probe); replayed into the library; runtime side on recorded Stack traces (C09)",
+    "PestSem.tla (by-value backtracking) evaluated by TLC on the stack family (each stack terminal in each backtracking context, followed by a stack-dependent probe); replayed into the library; every ParserState constructed during real parses recorded (checkpoint/ok/restore with the state before and after) and validated by TLC against the checkpoint discipline (StateTrace.tla)",
     "TLC evaluates the reference semantics, in which a failed branch simply returns the caller's state, on r = {SETUP ~ MID ~ PROBE} for every stack terminal (alone and in two-element sequences) in 13 backtracking "
-    "contexts x 3 setups x 4 probes x all inputs to the bound; interpreter and generated module must return the reference outcome and never raise.",
+    "contexts x 3 setups x 4 probes x all inputs to the bound; interpreter and generated module must return the reference outcome and never raise. Code->spec: the checkpoint/ok/restore calls of real parses "
+    "(stack grammars, bundled grammars, sampled family grammars; four modes) are recorded with position, user stack and depths before and after, and TLC validates each parse as a behaviour of StateTrace.tla: checkpoint and ok leave the "
+    "state unchanged, restore returns exactly to the innermost open checkpoint, and no checkpoint is open when the parse returns or raises.",
     REPLAY_NOTE + " PEEK[a..b] with indices outside the stack is outside the domain (pest fails, Python clamps; no statement pins it).",
     "DESIGN.md 2.2, 5 (C05)",
 )
@@ -220,7 +222,7 @@ def main():
             {"name": "check", "path": "check", "serves_properties": sorted(CHECKS), "kind_free_text": "Python driver: runs TLC on spec/*.tla, replays TLC-enumerated behaviours into the library, validates recorded traces with TLC"},
         ],
         "checks": [CHECKS[p] for p in sorted(CHECKS)],
-        "notes": "See DESIGN.md. Exit 2 = machinery failure (never a verdict). known_findings.json lists recorded findings and fixed defects.",
+        "notes": "See DESIGN.md. Exit 2 = machinery failure (never a verdict). known_findings.json lists recorded findings and fixed defects. ./check selftest demonstrates that every trace specification rejects a corrupted trace (anti-vacuity); ./check replay <file> re-executes a recorded case.",
         "not_applicable": na,
     }
     (VERIF / "MANIFEST.json").write_text(json.dumps(m, indent=1) + "\n")
